@@ -2,12 +2,17 @@
 
 // Add-only verification hook for C02 (injected by the build overlay, never part of /repo): runs the
 // real, unexported executeBatch - the place where the 65 signature bytes are assembled - against a
-// caller-supplied bridge.
+// caller-supplied bridge; reads the batch list of the real proposalBatches; shortens the two
+// package-level periods of watchExecution so that the real Execute returns soon after the runner has
+// marked a delivery as executed.
 package executor
 
 import (
+	"time"
+
 	"github.com/binance-chain/tss-lib/common"
 	ethCommon "github.com/ethereum/go-ethereum/common"
+	"github.com/sygmaprotocol/sygma-core/relayer/proposal"
 
 	"github.com/ChainSafe/sygma-relayer/relayer/transfer"
 )
@@ -15,4 +20,25 @@ import (
 func VerifC02ExecuteBatch(bridge BridgeContract, props []*transfer.TransferProposal, gasLimit uint64, sig *common.SignatureData) (*ethCommon.Hash, error) {
 	e := &Executor{bridge: bridge}
 	return e.executeBatch(&Batch{proposals: props, gasLimit: gasLimit}, sig)
+}
+
+// VerifC02Batches: the member lists of the batches the real proposalBatches builds (position =
+// index = the <i> of the signing session id <messageID>-<i>).
+func (e *Executor) VerifC02Batches(proposals []*proposal.Proposal) ([][]*transfer.TransferProposal, error) {
+	bs, err := e.proposalBatches(proposals)
+	if err != nil {
+		return nil, err
+	}
+	out := make([][]*transfer.TransferProposal, len(bs))
+	for i, b := range bs {
+		out[i] = b.proposals
+	}
+	return out, nil
+}
+
+// VerifC02SetPeriods sets executionCheckPeriod and signingTimeout and returns the old values.
+func VerifC02SetPeriods(check, timeout time.Duration) (time.Duration, time.Duration) {
+	oc, ot := executionCheckPeriod, signingTimeout
+	executionCheckPeriod, signingTimeout = check, timeout
+	return oc, ot
 }
